@@ -9,6 +9,7 @@ or `formula` (cells and formulas of a compiled model, `Evaluator.evaluate`).  Fo
 """
 import itertools
 import json
+import re
 from fractions import Fraction
 
 import common
@@ -26,7 +27,8 @@ LEVEL_TEXT = (
     '(error_leftmost), results are invariant under permuting arguments and cells (agg_perm), and the registry '
     'annotations of the seven functions are pinned by decide. The model is tied to the code by an exhaustive '
     'small-rectangle, all-splits, all-argument-orders and random differential run, as direct calls and through '
-    'formulas over real ranges of compiled models.')
+    'formulas over real ranges of compiled models, single-sheet and multi-sheet (qualified and unqualified '
+    'references mixed in one argument list, every order).')
 LEVEL_NOTE = (
     'Trusted: Lean kernel (propext, Classical.choice, Quot.sound); the hand models Model/C14.lean and '
     'Model/Value.lean (validated by correspondence, not proved equal to the Python); pandas DataFrame '
@@ -52,12 +54,24 @@ ASSUMPTIONS = [
     'compared with the model only',
     'which error SUMPRODUCT returns for an error item is not constrained (the code returns #N/A, asserted by '
     'its unit test); that SUM/AVERAGE/MIN/MAX return the leftmost error item is checked',
-    'ranges are given in normalised form (top-left:bottom-right) on one sheet (references are C03)',
+    'ranges are given in normalised form (top-left:bottom-right); sheet titles hold no comma (D0303 of C03)',
+    'texts that dateutil reads as a date ("1,2", "1 2", "--1", "1/2", "3rd", "may 5", "jan") are cast by the code '
+    '(known finding D23 of C08) and are outside the domain; the non-numeric pool holds only texts that are no '
+    'number for Python, no boolean word and no date for a strict dateutil parse',
 ]
 
 SINGLE = ['SUM', 'AVERAGE', 'MIN', 'MAX', 'COUNT', 'COUNTA']
 ALLFN = SINGLE + ['SUMPRODUCT']
-NONNUM = ['abc', 'x y', 'total:', 'é', 'n/a', '#', 'q']
+# Non-numeric texts for range members.  Besides plain words: texts that merely CONTAIN digits, signs,
+# punctuation, exponent / hex / percent / currency look-alikes.  None of them is a number for Python's
+# int()/float(), a boolean word, or a date for a strict dateutil parse (checked at start-up by
+# `nonnumeric_pool`, independently of the code under test).  Texts that dateutil reads as a date
+# ('1,2', '1 2', '--1', '1/2', '3rd', 'may 5', 'jan') are the known finding D23 of C08 and outside
+# this property's domain.
+NONNUM = ['abc', 'x y', 'total:', 'é', 'n/a', '#', 'q',
+          'lot 7', 'item 3', 'x1', 'ab12', '7 up', 'no. 5', 'e5', '0x1F', '1e', '$3', '3%', '#7', 'a-1',
+          '+-2', '1_', '(3)', '3 kg', '12:', 'v2.0', 'Q3', '12-x']
+TITLES = ['Calc', 'Data', 'My Sheet', 'Q1-2020', 'Sheet2']   # no ',' in a title: D0303 of C03
 ERR_CODES = ['#NULL!', '#DIV/0!', '#VALUE!', '#REF!', '#NAME?', '#NUM!', '#N/A']
 FCOL = 'ZZ'
 BLOCK = 13          # column distance between the ranges of a formula case
@@ -176,6 +190,8 @@ class Sheet:
         self.blanks = []     # addresses set to '' after compilation
         self.formulas = []
         self.results = None
+        self.home = 'Sheet1'        # sheet of the formula cells; addresses without '!' live there
+        self.default_sheet = None   # default_sheet argument of read_and_parse_dict (None: its default)
 
     def put(self, a, v):
         if isinstance(v, str) and v == '':
@@ -193,22 +209,29 @@ class Sheet:
 
     def evaluate(self):
         if self.results is None:
-            self.results = eval_sheet(self.cells, self.blanks, self.formulas)
+            self.results = eval_sheet(self.cells, self.blanks, self.formulas, self.home,
+                                      self.default_sheet)
         return self.results
 
 
-def eval_sheet(cells, blanks, formulas):
+def eval_sheet(cells, blanks, formulas, home='Sheet1', default_sheet=None):
     from xlcalculator import ModelCompiler, Evaluator
-    d = {f'Sheet1!{a}': v for a, v in cells.items()}
+
+    def full(a):
+        return a if '!' in a else f'{home}!{a}'
+    d = {full(a): v for a, v in cells.items()}
     faddrs = []
     for i, f in enumerate(formulas):
-        fa = f'Sheet1!{FCOL}{i + 1}'
+        fa = f'{home}!{FCOL}{i + 1}'
         d[fa] = f
         faddrs.append(fa)
     try:
-        model = ModelCompiler().read_and_parse_dict(d)
+        if default_sheet is None:
+            model = ModelCompiler().read_and_parse_dict(d)
+        else:
+            model = ModelCompiler().read_and_parse_dict(d, default_sheet=default_sheet)
         for a in blanks:
-            model.set_cell_value(f'Sheet1!{a}', '')
+            model.set_cell_value(full(a), '')
         ev = Evaluator(model)
     except Exception as exc:  # noqa: BLE001
         return ['X:' + type(exc).__name__] * len(formulas)
@@ -325,6 +348,35 @@ def tilings(r, c):
 
     rec([[False] * c for _ in range(r)], [])
     return out
+
+
+def qualified(title, rng):
+    """a sheet title as it is written in a formula: quoted when it must be, sometimes when it need not"""
+    if re.fullmatch(r'[A-Za-z_][A-Za-z0-9_]*', title) and rng.random() < 0.7:
+        return title
+    return "'" + title.replace("'", "''") + "'"
+
+
+def nonnumeric_pool():
+    """the members of NONNUM that are no number for Python, no boolean word and no date for a strict
+    dateutil parse — decided without the code under test"""
+    import dateutil.parser
+    keep = []
+    for t in NONNUM:
+        try:
+            float(t)
+            continue
+        except ValueError:
+            pass
+        if t.strip().lower() in ('true', 'false'):
+            continue
+        try:
+            dateutil.parser.parse(t)
+            continue
+        except (ValueError, OverflowError):
+            pass
+        keep.append(t)
+    return keep
 
 
 def piece_arg(rows, p):
@@ -525,6 +577,77 @@ class Gen:
                     c3 = rand_rows(rng, *s1, pn=0.8)
                     self.both([('SUMPRODUCT', [['R', a], ['R', c3], ['R', b]])], 'shape')
 
+    # -- 6b. workbooks with several sheets: qualified and unqualified ranges and cells in one argument list
+    def workbooks(self):
+        rng = self.rng
+        n = 40 if self.thorough else 5
+        kinds = ['QR', 'OR', 'UR', 'QC', 'OC', 'UC', 'LIT']
+        # QR/QC: range / cell qualified with another sheet; OR/OC: qualified with the formula's own
+        # sheet; UR/UC: unqualified (the formula's own sheet); LIT: a number typed into the formula
+        for w in range(n):
+            titles = rng.sample(TITLES, rng.randint(2, 3))
+            h, wd = rng.randint(2, 4), rng.randint(2, 4)
+            grids = {t: rand_rows(rng, h, wd, pn=0.6 + 0.3 * rng.random()) for t in titles}
+            home = rng.choice(titles)
+            sheet = Sheet()
+            sheet.home = home
+            sheet.default_sheet = rng.choice([None, home, rng.choice(titles)])
+            for t in titles:
+                for r in range(h):
+                    for c in range(wd):
+                        sheet.put(f'{t}!{addr(r, c)}', grids[t][r][c])
+            others = [t for t in titles if t != home]
+
+            def rect():
+                r0, c0 = rng.randrange(h), rng.randrange(wd)
+                return r0, c0, rng.randint(r0, h - 1), rng.randint(c0, wd - 1)
+
+            def make(kind, box=None):
+                """(semantic argument, formula text)"""
+                if kind == 'LIT':
+                    v = rand_num(rng)
+                    return ['S', v, 'x'], lit(v)
+                t = rng.choice(others) if kind[0] == 'Q' else home
+                prefix = '' if kind[0] == 'U' else qualified(t, rng) + '!'
+                if kind[1] == 'C':
+                    r, c = rng.randrange(h), rng.randrange(wd)
+                    return ['S', grids[t][r][c], 'ref'], prefix + addr(r, c)
+                r0, c0, r1, c1 = box or rect()
+                rows = [row[c0:c1 + 1] for row in grids[t][r0:r1 + 1]]
+                return ['R', rows], f'{prefix}{addr(r0, c0)}:{addr(r1, c1)}'
+
+            def emit(fns, pairs, kind):
+                args = [p[0] for p in pairs]
+                texts = [p[1] for p in pairs]
+                for fn in fns:
+                    self.formula(sheet, fn, args, texts, kind)
+
+            # every ordered pair of reference kinds
+            for k1 in kinds:
+                for k2 in kinds:
+                    if k1 == k2 == 'LIT':
+                        continue
+                    fns = SINGLE if self.thorough or w == 0 else rng.sample(SINGLE, 2)
+                    emit(fns, [make(k1), make(k2)], 'sheets')
+            # longer argument lists in every order
+            for _ in range(12 if self.thorough else 6):
+                k = rng.choice([3, 4]) if self.thorough else 3
+                pairs = [make(rng.choice(kinds)) for _ in range(k)]
+                if not any('!' in p[1] for p in pairs):
+                    pairs[0] = make('QR')
+                fns = rng.sample(SINGLE, 3 if self.thorough else 2)
+                for perm in itertools.permutations(range(k)):
+                    emit(fns, [pairs[i] for i in perm], 'sheets')
+            # SUMPRODUCT: the same rectangle on different sheets, qualified or not, in every order
+            for _ in range(4 if self.thorough else 2):
+                box = rect()
+                ks = [rng.choice(['QR', 'OR', 'UR']) for _ in range(rng.randint(2, 3))]
+                if 'QR' not in ks:
+                    ks[0] = 'QR'
+                pairs = [make(kd, box) for kd in ks]
+                for perm in itertools.permutations(range(len(pairs))):
+                    emit(['SUMPRODUCT'], [pairs[i] for i in perm], 'sheets')
+
     # -- 7. outside the domain: compared with the model only
     def probes(self):
         rng = self.rng
@@ -700,6 +823,8 @@ def public(case):
         d['formula'] = case['formula']
         d['cells'] = case['sheet'].cells
         d['blanks'] = case['sheet'].blanks
+        d['home'] = case['sheet'].home
+        d['default_sheet'] = case['sheet'].default_sheet
     return d
 
 
@@ -792,6 +917,8 @@ def replay_case(path):
         sheet = Sheet()
         sheet.cells = dict(inp['cells'])
         sheet.blanks = list(inp['blanks'])
+        sheet.home = inp.get('home', 'Sheet1')
+        sheet.default_sheet = inp.get('default_sheet')
         case['sheet'], case['formula'] = sheet, inp['formula']
         case['fi'] = sheet.add_formula(inp['formula'])
     return case
@@ -803,7 +930,11 @@ def run(ctx):
     res.rule = ('every fill pattern of rectangles <= 3x3 over {number, empty, non-numeric text} - an empty cell being either never stored (BLANK placeholder) or explicitly set to the empty string, both kinds exhaustively up to 4 (thorough 6) cells - (thorough: all '
                 '21297; quick: all up to 2x3/3x2 and 500 of the 3x3 ones), random rectangles up to 12x12, every '
                 'partition of rectangles up to 3x3 (thorough 3x4) into sub-ranges and single cells, every order '
-                'of <= 4 arguments, cells permuted inside ranges, error items, all pairs of SUMPRODUCT shapes; '
+                'of <= 4 arguments, cells permuted inside ranges, error items, all pairs of SUMPRODUCT shapes, workbooks of 2-3 '
+                'sheets (plain and quoted titles, different values at the same coordinates) with every ordered pair of '
+                '{range, cell} x {qualified with another sheet, with the own sheet, unqualified} and literals in one '
+                'argument list and longer lists in every order; texts in ranges include digit-bearing non-numbers '
+                '("lot 7", "x1", "0x1F", "1e", "$3", "3%"); '
                 'each through SUM AVERAGE MIN MAX COUNT COUNTA SUMPRODUCT as a direct call and as a formula '
                 'over ranges of a compiled model; real vs the fold of the statement (exact; mean within 4 ulp) '
                 'and vs the Lean model; non-trivial = distinct request addressing >= 2 values of which >= 1 is a '
@@ -811,6 +942,10 @@ def run(ctx):
     # the listed region of D1403 is pinned to the constant the code had when the finding was listed
     # (a smaller MAX_EMPTY makes more inputs fail: those are violations, not the known finding)
     max_empty = LISTED_MAX_EMPTY
+    global NONNUM
+    NONNUM = nonnumeric_pool()
+    if len(NONNUM) < 20:
+        raise RuntimeError(f'non-numeric text pool shrank to {NONNUM!r}')
     listed = {e['id'] for e in ctx.known if e.get('status') == 'known'}
     if ctx.replay:
         cases = [replay_case(ctx.replay)]
@@ -827,6 +962,7 @@ def run(ctx):
         g.splits()
         g.orders()
         g.random_rects()
+        g.workbooks()
         g.probes()
         cases = g.cases
         res.exhaustive = bool(getattr(g, 'ctx_exhaustive', False))
